@@ -1,12 +1,14 @@
 /-
 C13 line-protocol driver.  One case = one admin handler + one request:
 
-  req <side> <addr> <origins> <eo> <acl> <pats> <idx> <method> <host> <path> <upg> <origin> <referer> <tls>
+  req  <side> <addr> <origins> <eo> <acl> <pats> <idx> <method> <host> <path> <upg> <origin> <referer> <tls>
+  load <side> <addr> …same fields…     the same case driven through caddy.Load of a JSON config
 
   side     L | R                                  local / remote endpoint (newAdminHandler's `remote`)
-  addr     listen:network:host:port:ipclass       listen = the configured string (hex, impl only);
-                                                  the rest = what ParseNetworkAddress / netip made of it
-                                                  (hex, hex, decimal, n|u|l|o)
+  addr     listen:ipclass                         listen = the configured `admin.listen` / `remote.listen`
+                                                  string (hex; printable ASCII, no braces), parsed by the
+                                                  model (Listen.lean); ipclass = netip's verdict on the
+                                                  host it parses to (n|u|l|o)
   origins  ~ (null) | . (empty) | raw:ok:scheme:host;…     ok,scheme,host = url.Parse(raw) table
   eo       0 | 1                                  enforce_origin
   acl      ~ (no remote config) | . | keys/perms;…   keys = . | k,k…   perms = . | methods|paths+…
@@ -25,7 +27,7 @@ Answer:  <final> <path> <cors> <hits>     final = refused:<why> | handled:<patte
          (malformed, unsafe path bytes, CONNECT with an unclean path anywhere in the /id/ chain — the mux does
          not canonicalise CONNECT —, POST that can end at /stop, which exits the process).
 -/
-import CaddyModel.C13.Model
+import CaddyModel.C13.Listen
 
 namespace CaddyModel.C13
 
@@ -46,15 +48,18 @@ def parseIp (s : String) : Option IpClass :=
   if s == "n" then some .notIP else if s == "u" then some .unspecified
   else if s == "l" then some .loopback else if s == "o" then some .other else none
 
-def parseAddr (s : String) : Option Addr :=
+/-- the addr field: the configured listen string and the netip class of the host it parses to -/
+def parseAddr (s : String) : Option (Bytes × IpClass) :=
   match s.splitOn ":" with
-  | [_listen, n, h, p, ip] => do
-    let n ← Hex.decode n
-    let h ← Hex.decode h
-    let p ← p.toNat?
-    let ip ← parseIp ip
-    pure ⟨n, h, p, ip⟩
+  | [listen, ip] => do pure (← Hex.decode listen, ← parseIp ip)
   | _ => none
+
+/-- the harness overrides `caddy.DefaultAdminListen` with this (nothing may bind localhost:2019
+    from inside a check); the remote default is caddy's own -/
+def defaultLocalListen : Bytes := str "unix/c13-default.sock"
+def defaultRemoteListen : Bytes := str ":2021"
+
+def listenByteOK (b : UInt8) : Bool := 32 ≤ b && b ≤ 126 && b != 123 && b != 125
 
 def parseUrlT (ok sc h : String) : Option Url := do
   pure ⟨← parseBool ok, ← Hex.decode sc, ← Hex.decode h⟩
@@ -133,14 +138,32 @@ def showFinal : Final → String
 /-- the driver's handler effect: the state is the hit counter of the probe module's routes -/
 def probeHits (pat : Bytes) (_ : Req) (s : Nat) : Nat := if builtinPats.contains pat then s else s + 1
 
-def handle : List String → String
-  | ["req", side, addr, origins, eo, acl, pats, idx, method, host, path, upg, origin, referer, tls] =>
+/-- what the `load` op can bind from inside the harness: loopback / wildcard TCP on an ephemeral
+    port, or a unix socket `c13-load…` in the (private) working directory -/
+def bindableHosts : List Bytes := [str "localhost", str "127.0.0.1", str "127.0.0.2", [], str "0.0.0.0"]
+def loadable (network host : Bytes) (port : Nat) : Bool :=
+  (network == sTcp && port == 0 && bindableHosts.contains host) ||
+  (network == sUnix && hasPrefix host (str "c13-load"))
+
+/-- the permission-bits suffix of a unix socket address is modelled up to 6 octal digits -/
+def unixPermInDomain (network host : Bytes) : Bool :=
+  !hasPrefix network sUnix ||
+  (match cutAt 124 host with
+   | none => true
+   | some (_, bits) => bits.length ≤ 6)
+
+/-- `req`: the handler is built by `newAdminHandler` from the parsed address (hook);
+    `load`: the same case driven through `caddy.Load` of a JSON config (real JSON decoding,
+    replaceLocalAdminServer / replaceRemoteAdminServer, real key extraction) — same answer. -/
+def handleReq (load : Bool) : List String → String
+  | [side, addr, origins, eo, acl, pats, idx, method, host, path, upg, origin, referer, tls] =>
     match parseAddr addr, parseOrigins origins, parseBool eo, parseAcl acl, decList pats ",", parseIdx idx with
-    | some a, some os, some eo, some acl, some pats, some idx =>
+    | some (listen, ip), some os, some eo, some acl, some pats, some idx =>
       match Hex.decode method, Hex.decode host, Hex.decode path, decList upg ",",
             parseHeaderUrl origin, parseHeaderUrl referer, parseTls tls with
       | some m, some h, some p, some up, some (o, ou), some (rf, ru), some tls =>
         if side != "L" && side != "R" then "bad-op"
+        else if !listen.all listenByteOK then "bad-op"
         else if !up.all (fun v => v.all (· < 128)) then "bad-op"   -- strings.ToLower is only modelled on ASCII
         else if !(pats.all validPat) || !distinct pats || !distinct (idx.map (·.1)) then "bad-op"
         else if m.isEmpty || !m.all alpha then "bad-op"
@@ -150,13 +173,24 @@ def handle : List String → String
           | some chain =>
             if m == sCONNECT && !chain.all isCleanPath then "bad-op"
             else if m == sPOST && chain.contains pStop then "bad-op"
-            else
-              let hd := newAdminHandler ⟨os, eo, acl⟩ a (side == "R") pats
-              let r : Req := ⟨m, h, p, up, o, rf, ou, ru, tls⟩
-              let res := serveReal probeHits hd idx (maxHops + 1) r 0
-              s!"{showFinal res.final} {Hex.encode res.path} {res.cors} {res.state}"
+            else match parseAdminListenAddr listen (if side == "R" then defaultRemoteListen else defaultLocalListen) with
+              | .err => "listen-error"
+              | .ok network ahost port =>
+                if !unixPermInDomain network ahost then "bad-op"
+                else if load && !loadable network ahost port then "bad-op"
+                else if load && side == "R" && acl.isNone then "bad-op"
+                else
+                  let hd := newAdminHandler ⟨os, eo, acl⟩ ⟨network, ahost, port, ip⟩ (side == "R") pats
+                  let r : Req := ⟨m, h, p, up, o, rf, ou, ru, tls⟩
+                  let res := serveReal probeHits hd idx (maxHops + 1) r 0
+                  s!"{showFinal res.final} {Hex.encode res.path} {res.cors} {res.state}"
       | _, _, _, _, _, _, _ => "bad-op"
     | _, _, _, _, _, _ => "bad-op"
+  | _ => "bad-op"
+
+def handle : List String → String
+  | "req" :: rest => handleReq false rest
+  | "load" :: rest => handleReq true rest
   | _ => "bad-op"
 
 end CaddyModel.C13
